@@ -268,6 +268,24 @@ func failureCase(c *fw.Ctx, e *env, r *fw.Rand, idx int) {
 		metrics = append(metrics, m)
 	}
 	descend := r.Bool()
+	// ping metrics as each member's own monitor sees them: complete, or - at one survivor -
+	// lacking the ping of one live member (metric views are private and may differ; who acts
+	// is decided on the agreed peerset, not on them)
+	lackAt, lackOf := -1, -1
+	if r.Chance(1, 2) && n >= 3 {
+		lackAt = r.Intn(n)
+		lackOf = (lackAt + 1 + r.Intn(n-1)) % n
+	}
+	for i := 0; i < maxNodes; i++ {
+		var pings []*api.Metric
+		for j := 0; j < n; j++ {
+			if i == lackAt && j == lackOf {
+				continue
+			}
+			pings = append(pings, &api.Metric{Name: "ping", Peer: gen.Peer(j), Valid: true, Expire: time.Now().Add(time.Hour).UnixNano()})
+		}
+		e.members[i].mon.SetMetrics("ping", pings)
+	}
 	for i := 0; i < maxNodes; i++ {
 		m := e.members[i]
 		m.mon.SetMetrics("m", metrics)
